@@ -270,18 +270,23 @@ def check_property(prop, tier, seed):
                         r["undecided_resolved_by_search"] = list(r["undecided"])
                         r["undecided"] = []
 
-    # Thorough tier only: cross-checks that are NOT the deciding step.  (a) each unit's directed
-    # search is run proactively with further seeds: the real code against the executable reference
+    # Cross-checks that are NOT the deciding step.  (a) each unit's directed search is run
+    # proactively (quick: one seed; thorough: four): the real code against the executable reference
     # of the specification's algorithm — guards against a contract that is wrong in the same way as
     # the code; (b) the dependency models the Verus units assume (bit_vec::BitVec, itertools chunks,
     # div_mod_floor, ilog2) are compared with the real crates.  A disagreement is reported with its
     # concrete input; finding nothing proves nothing and is counted as nothing.
     cross = []
-    if tier == "thorough":
+    _search_cache = {}
+    if True:
         for r in results:
             spec = U.UNITS[r["unit"]]
             if "search" in spec and not r["failures"] and not r["undecided"]:
-                for sd in (seed + 1, seed + 2, seed + 3):
+                # quick tier: one seed (a few seconds per unit); thorough: three further seeds
+                for sd in ((seed,) if tier != "thorough" else (seed, seed + 1, seed + 2, seed + 3)):
+                    if (spec["search"], sd) in _search_cache:
+                        continue  # another unit of this property already ran this search
+                    _search_cache[(spec["search"], sd)] = True
                     rc, out = run_replay([spec["search"], str(sd)], timeout=900)
                     m = re.search(r"WITNESS (.*?) \| argv=(\S+)", out)
                     cross.append({"unit": r["unit"], "cmd": "%s %d" % (spec["search"], sd), "kind": "bounded directed search against the reference algorithm",
@@ -295,7 +300,7 @@ def check_property(prop, tier, seed):
                             "only": (lambda mo: mo.group(1).split(",") if mo else None)(re.match(r"\[only:([\w,]+)\]", m.group(1))),
                             "cex": {"argv": m.group(2).split(","), "found_by": "bounded directed search (%s)" % spec["search"], "what": m.group(1)}})
                         break
-            for mc in spec.get("models", []):
+            for mc in (spec.get("models", []) if tier == "thorough" else []):
                 for sd in (seed + 1, seed + 2):
                     rc, out = run_replay([mc, str(sd)], timeout=900)
                     ok = rc == 0 and "MODEL-OK" in out
